@@ -71,6 +71,14 @@ func runC16(t *testing.T, c simrt.Chooser, o Opts) *Out {
 		nReadErrs = min(3+p.n("nreaderrs", 10), maxReadErrors(sc.exitDelay))
 		injectReadErrors(sc, nReadErrs)
 	}
+	// the target list cannot be opened: request generation fails at the start of the scan; the error
+	// is reported and the scan still ends (after its exit delay at the latest)
+	missingFile := false
+	if _, ok := sc.World.Files[targetsFn]; ok && !flood && p.pct("missingfile", 3) {
+		delete(sc.World.Files, targetsFn)
+		missingFile = true
+		simrtFault(out, "target-file-missing")
+	}
 	out.Scenario = sc
 	cr := runPacketScenario(t, c, o, sc)
 	out.Res = &cr.Res
@@ -79,6 +87,18 @@ func runC16(t *testing.T, c simrt.Chooser, o Opts) *Out {
 	out.Nontrivial = len(cr.Wire) >= 1
 	out.Key = fmt.Sprintf("%v/%s/%s/%d/%016x", sc.Spec.Cmd, sc.Spec.Mode, sc.ExitDelay, len(cr.Wire), cr.Res.Hash)
 	if crashOrHang(out, "C16", cr) {
+		return out
+	}
+	if missingFile {
+		if cr.ExecErr == "" && len(cr.Errs) == 0 {
+			out.violate("C16.silent-failure", sc.Spec.Kind, "argv %v: the target list does not exist, but neither an error record nor a failure status was produced", sc.World.Argv)
+		}
+		if len(cr.Wire) > 0 {
+			out.violate("C16.silent-failure", sc.Spec.Kind+"/sent", "argv %v: %d frames sent although the target list could not be opened", sc.World.Argv, len(cr.Wire))
+		}
+		if cr.ReturnT > time.Duration(1+len(sc.Spec.Ports)/200)*sc.exitDelay+time.Second {
+			out.violate("C16.late-exit", sc.Spec.Kind+"/missing-file", "argv %v: returned at %v (exit delay %v)", sc.World.Argv, cr.ReturnT, sc.exitDelay)
+		}
 		return out
 	}
 	if cr.ExecErr != "" {
